@@ -351,8 +351,10 @@ func (f *frame) mutexKeys(m ssa.Value) (structKey, field string) {
 func (f *frame) lock(at ssa.Instruction, m T, c *ssa.CallCommon, st *State) {
 	e := f.e
 	a, pos := f.anchor(at)
-	excl := "(select " + e.H(st, "EXCL", "(Array Int Bool)") + " " + m.S + ")"
-	e.addOb("lock-reentry", a, f.lockTags(c), pos, st.cond, not(excl))
+	// HELD: the mutex is locked by this thread; EXCL: this thread has exclusive access to what it guards
+	// (it holds the lock, or the object is its own fresh, still unshared allocation)
+	held := "(select " + e.H(st, "HELD", "(Array Int Bool)") + " " + m.S + ")"
+	e.addOb("lock-reentry", a, f.lockTags(c), pos, st.cond, not(held))
 	if f.root.ct == nil || !f.root.ct.Sequential {
 		// other threads may have changed everything reachable from shared state
 		e.havocChans = true
@@ -363,6 +365,7 @@ func (f *frame) lock(at ssa.Instruction, m T, c *ssa.CallCommon, st *State) {
 	}
 	ex := e.H(st, "EXCL", "(Array Int Bool)")
 	e.setHeap(st, "EXCL", "(Array Int Bool)", "(store "+ex+" "+m.S+" true)")
+	e.setHeap(st, "HELD", "(Array Int Bool)", "(store "+e.H(st, "HELD", "(Array Int Bool)")+" "+m.S+" true)")
 	// parameters and earlier values remain allocated
 	sk, mf := "", ""
 	if len(c.Args) > 0 {
@@ -400,8 +403,8 @@ func (f *frame) lockTags(c *ssa.CallCommon) []string {
 func (f *frame) unlock(at ssa.Instruction, m T, c *ssa.CallCommon, st *State) {
 	e := f.e
 	a, pos := f.anchor(at)
-	excl := "(select " + e.H(st, "EXCL", "(Array Int Bool)") + " " + m.S + ")"
-	e.addOb("unlock-not-held", a, f.lockTags(c), pos, st.cond, excl)
+	held := "(select " + e.H(st, "HELD", "(Array Int Bool)") + " " + m.S + ")"
+	e.addOb("unlock-not-held", a, f.lockTags(c), pos, st.cond, held)
 	sk, mf := "", ""
 	if len(c.Args) > 0 {
 		sk, mf = f.mutexKeys(c.Args[0])
@@ -422,6 +425,7 @@ func (f *frame) unlock(at ssa.Instruction, m T, c *ssa.CallCommon, st *State) {
 	}
 	ex := e.H(st, "EXCL", "(Array Int Bool)")
 	e.setHeap(st, "EXCL", "(Array Int Bool)", "(store "+ex+" "+m.S+" false)")
+	e.setHeap(st, "HELD", "(Array Int Bool)", "(store "+e.H(st, "HELD", "(Array Int Bool)")+" "+m.S+" false)")
 }
 
 // ------------------------------------------------------------------ framing
@@ -1226,6 +1230,7 @@ func (f *frame) parallelize(at ssa.Instruction, c *ssa.CallCommon, args []T, st 
 		}
 	}
 	delete(changed, "EXCL")
+	delete(changed, "HELD")
 	f.analyseWrites(wl, snap.nfresh, changed)
 	e.probe--
 	if e.probe == 0 {
